@@ -456,9 +456,13 @@ func (fx *FuncExec) applyContract(st *State, c *Contract, key string, cpkg *type
 			bound["result"] = results[i]
 		}
 	}
-	for _, en := range c.Ensures {
+	for i, en := range c.Ensures {
 		env := mkEnv(st, pre, "ensures")
-		st.assume(env.Bool(en.Expr))
+		tag := fmt.Sprintf("%s.%d", shortCallee(c.Key), i+1)
+		if en.Label != "" {
+			tag = shortCallee(c.Key) + "." + en.Label
+		}
+		fx.assumeTagged(st, env.Bool(en.Expr), tag)
 	}
 	return results
 }
